@@ -1,7 +1,7 @@
 """Property -> rule list, with the text that goes into the evidence."""
 import importlib
 
-RULE_MODULES = ["su", "w", "xn", "gv", "r", "lmt", "k", "b", "extra", "extra2"]
+RULE_MODULES = ["su", "w", "xn", "gv", "r", "lmt", "k", "b", "extra", "extra2", "extra3"]
 
 COMMON_ASSUME = [
     "clang 14's parse, constant evaluation and CFG of each unit are faithful to the C semantics",
@@ -27,8 +27,8 @@ def _p(rules, text, notdec):
 
 
 PROPS = {
-    "C01": _p(["W1", "W2", "W3", "W7", "W8", "G1", "G4", "W9"],
-              "the save helper applies every buffer accessor to the buffer it was handed, never to the current one (W9); every line of the range is emitted exactly once and counted exactly once on every "
+    "C01": _p(["W1", "W2", "W3", "W7", "W8", "G1", "G4", "W9", "U6"],
+              "linecount, evaluated abstractly, counts an unterminated last line (U6); the save helper applies every buffer accessor to the buffer it was handed, never to the current one (W9); every line of the range is emitted exactly once and counted exactly once on every "
               "acyclic path of lbuf_wr's loop, the loop covers [beg,end), each flush resets the "
               "fill, and fill+len <= sizeof(batch) is proved by the linear prover from the path "
               "guards for all values (W1); a successful return truncates to the counted length "
@@ -59,8 +59,8 @@ PROPS = {
               "writes are retried (W3).",
               "file content after a mid-write fault and that a later retry succeeds (runtime fault "
               "sequences); ftruncate faults are outside the property's quantifier."),
-    "C04": _p(["U1", "U2", "U3", "U4", "U5", "S1", "S2", "S4", "G4", "I1", "P2"],
-              "the undo group after a command line is closed on the buffer that is current afterwards (P2); no splice of the line table without a dominating log entry carrying the same "
+    "C04": _p(["U1", "U2", "U3", "U4", "U5", "S1", "S2", "S4", "G4", "I1", "P2", "U6"],
+              "the recorded number of inserted lines counts an unterminated last line (U6); the undo group after a command line is closed on the buffer that is current afterwards (P2); no splice of the line table without a dominating log entry carrying the same "
               "position/count/text (U1,U2); undo and redo replay dual arguments of what lbuf_opt "
               "recorded, loop over exactly one sequence number, move the cursor the right way and "
               "fail before any splice at the ends of history (U3); a new edit cuts the redo branch "
@@ -68,11 +68,11 @@ PROPS = {
               "line command (S1,S2,S4).",
               "equality of texts along arbitrary undo/redo walks (argued by induction on the log "
               "in DESIGN.md, not mechanised); mark restoration."),
-    "C05": _p(["B1", "B2", "B3", "B4", "B5", "B6", "B7", "B9", "B10", "B11", "P1", "N2", "X2", "L2", "L4", "I1", "B12", "B13", "P2"],
-              "every index into the saved-mark arrays of an undo record fits the smallest allocation of that array, loop bounds included (B12); functions handed (buffer, length) pairs keep every store, memcpy and snprintf within the length, given that every call site passes at most the array it owns (B13); no local keeps the current-buffer pointer across a call that can switch or free buffers (P2); the bounded-write clauses named in the anchors, each by a linear proof from the dominating guards (Fourier-Motzkin over the AST's conditions, for all values): writes into fixed arrays at the frozen guard-bounded sites - recording, push-back, repeat, tag stack, auto-indent, vi key stack (B1, guard must be in element units); every strcpy/strcat/sprintf into a fixed array against an interprocedural string-length bound, every snprintf size against its array (B2); every write through a freshly malloc'ed block against the allocation size, incl. line re-termination and the growth copies under the declared struct invariants (B3, I1); the string buffer keeps s_n + written + 1 <= s_sz for allocated and fresh buffers (B4); the 512-byte command gate dominates the three part copies and the copiers write at most one byte per byte read (B5); matcher out-arrays hold 2n ints and the \\\\digit index stays inside (B6); table-bounded loops fit their arrays (B7); every lbuf_get / reg_get result is null-tested, index-proved or given only to null-tolerant callees (B9, B10); the unchecked per-line mark accessors get 0 <= i < lbuf_len (B11); register text is not used across a call that can free it (P1); a successful address resolution is a range inside the buffer (X2); the literal matcher defines all group slots and never looks before the line (L2, L4).",
+    "C05": _p(["B1", "B2", "B3", "B4", "B5", "B6", "B7", "B9", "B10", "B11", "P1", "N2", "X2", "L2", "L4", "I1", "B12", "B13", "P2", "P3", "X9"],
+              "no local alias of a block is used after the block was freed in the same function (P3); the pipe written inside cmd_pipe's poll loop is set non-blocking first (X9); every index into the saved-mark arrays of an undo record fits the smallest allocation of that array, loop bounds included (B12); functions handed (buffer, length) pairs keep every store, memcpy and snprintf within the length, given that every call site passes at most the array it owns (B13); no local keeps the current-buffer pointer across a call that can switch or free buffers (P2); the bounded-write clauses named in the anchors, each by a linear proof from the dominating guards (Fourier-Motzkin over the AST's conditions, for all values): writes into fixed arrays at the frozen guard-bounded sites - recording, push-back, repeat, tag stack, auto-indent, vi key stack (B1, guard must be in element units); every strcpy/strcat/sprintf into a fixed array against an interprocedural string-length bound, every snprintf size against its array (B2); every write through a freshly malloc'ed block against the allocation size, incl. line re-termination and the growth copies under the declared struct invariants (B3, I1); the string buffer keeps s_n + written + 1 <= s_sz for allocated and fresh buffers (B4); the 512-byte command gate dominates the three part copies and the copiers write at most one byte per byte read (B5); matcher out-arrays hold 2n ints and the \\\\digit index stays inside (B6); table-bounded loops fit their arrays (B7); every lbuf_get / reg_get result is null-tested, index-proved or given only to null-tolerant callees (B9, B10); the unchecked per-line mark accessors get 0 <= i < lbuf_len (B11); register text is not used across a call that can free it (P1); a successful address resolution is a range inside the buffer (X2); the literal matcher defines all group slots and never looks before the line (L2, L4).",
               "absence of all memory errors (indices that are matcher offsets, permutation values or display columns are named exceptions listed in the evidence notes), termination / bounded time, and the %d-only sprintf calls into the small terminal buffers (width depends on window geometry)."),
-    "C06": _p(["X1", "X2", "X3", "X4", "X5", "G3", "U1", "X6", "G7", "X7", "X8"],
-              "a caller that reads the range on ex_region's failure path has initialised it (X8); append splices at (end, end), insert at (beg, beg) and change at (beg, end) of the range ex_region validated, on every path to the splice classified by the command letter it tested (X7); the shift of the numbered registers runs down to the register that receives the new text (G7); a write() that sends `total - done` bytes starts at `buf + done` (X6: the filter pipe resumes a partial write where it stopped); all 14 ex_region call sites test the result and the fail edge reaches only failing "
+    "C06": _p(["X1", "X2", "X3", "X4", "X5", "G3", "U1", "X6", "G7", "X7", "X8", "X9"],
+              "the filter pipe is non-blocking before the poll loop that feeds it (X9); a caller that reads the range on ex_region's failure path has initialised it (X8); append splices at (end, end), insert at (beg, beg) and change at (beg, end) of the range ex_region validated, on every path to the splice classified by the command letter it tested (X7); the shift of the numbered registers runs down to the register that receives the new text (G7); a write() that sends `total - done` bytes starts at `buf + done` (X6: the filter pipe resumes a partial write where it stopped); all 14 ex_region call sites test the result and the fail edge reaches only failing "
               "returns with no effect on buffer, registers, marks or current line (address 0 "
               "tolerated only for a/i/c with both bounds 0) (X1); every path of ex_region to "
               "`return 0` establishes 0 <= beg <= end <= $ by the linear prover (X2); handlers "
@@ -95,8 +95,8 @@ PROPS = {
               "(V3).",
               "equality of the repeated and the retyped execution (relational, behavioural); the "
               "bounds of the recording/push-back buffers are decided under C05 (B1)."),
-    "C10": _p(["R4", "R5", "R6", "R9", "K4", "R11", "R12", ],
-              "a parse error never leaves a compiled prefix, a repetition binds to exactly one character, on every pattern up to length 4 (quick) / 5 (thorough) over the metacharacter alphabet with a lead and a continuation byte (R11); the matching state is set afresh for every start position so a failed attempt cannot make a later one fail or report stale groups (R12); greedy / left-biased priority as a property of the fork instruction (a1 tried recursively, state restored from a copy, then a2) and of each of the four places that emit one (a1 -> the sub-pattern that follows, a2 -> after it / deferred / loop-back), alternation emits the left branch first (R4); the scan starts at the subject start, advances one decoded character and returns the first success (R5); each bracket class name denotes exactly the C-locale predicate's ASCII set (R6); every built-in pattern set needs at most NGRPS/2 groups by the repository's own group-count rule, so no alternative's marks are dropped and the reported index can be the matching one (K4).",
+    "C10": _p(["R4", "R5", "R6", "R9", "K4", "R11", "R12", "R13"],
+              "the set matcher's own group counter agrees with the number of groups the parser builds, on every compiling pattern up to length 4/5 over ( ) [ ] \\\\ ^ : | * a and on all built-in patterns (R13); a parse error never leaves a compiled prefix, a repetition binds to exactly one character, on every pattern up to length 4 (quick) / 5 (thorough) over the metacharacter alphabet with a lead and a continuation byte (R11); the matching state is set afresh for every start position so a failed attempt cannot make a later one fail or report stale groups (R12); greedy / left-biased priority as a property of the fork instruction (a1 tried recursively, state restored from a copy, then a2) and of each of the four places that emit one (a1 -> the sub-pattern that follows, a2 -> after it / deferred / loop-back), alternation emits the left branch first (R4); the scan starts at the subject start, advances one decoded character and returns the first success (R5); each bracket class name denotes exactly the C-locale predicate's ASCII set (R6); every built-in pattern set needs at most NGRPS/2 groups by the repository's own group-count rule, so no alternative's marks are dropped and the reported index can be the matching one (K4).",
               "genuineness of matches, capture spans, completeness within the depth limit (behavioural over runtime strings; the proposed depth-limit counter hook is a runtime device and is not used)."),
     "C17": _p(["K1", "K5", "B3", "T4"],
               "the three width/bell range tables are sorted, disjoint and lo <= hi (bisection precondition), the shortcut thresholds in uc_isdw/uc_iszw do not exclude listed characters, find() agrees with the tables at every range boundary by abstract evaluation, widths are 0/1/2 (K1); pos[]/off[] allocations cover their writes (B3).",
@@ -104,22 +104,22 @@ PROPS = {
     "C18": _p(["O1", "O2", "K2", "K3", "B7", "T4"],
               "the order array is written only by the identity initialisation over [0,n), the guarded terminator fixed point and an element swap whose loop runs while beg < end, and is inverted as off[pos[i]] = i (O1: necessary for `always a permutation`); every shaping form is, per the Unicode database, the isolated/initial/medial/final presentation form of the same letter, the table is strictly increasing for its bisection, and uc_cshape picks medial/final/initial/base by (join_prev, join_next) for every row x 25 neighbour contexts and never alters non-Arabic characters, by abstract evaluation (K2); direction-mark rows reference existing groups that fit subs[], dir/ctx in range (K3); the loops filling the pattern arrays are bounded by table lengths <= array sizes (B7).",
               "that swap ranges stay inside the line (matcher offsets) and the reversal semantics of runs (behavioural)."),
-    "C12": _p(["L1", "L2", "L3", "L4", "L5", "T4", "M2"],
-              "resumed at an interior offset with the left-context flag, the fast path, the engine started there and the engine on the whole line give the same first match on all lines of length <= 3 (L5); every caller that resumes inside a line passes that flag and the caller working on a copied run does not (M2); the fast path accepts an offset exactly when the engine's own RA_WBEG / RA_WEND atoms accept it, on every line of length <= 3 over {word, '-', blank}, and folds case exactly as the engine's literal atom does on every byte against its 0x20-neighbours (L5); every byte the regex parser treats as an operator (case labels, strchr sets and comparisons of the parser functions) stops the literal classifier's scan, so a pattern with an operator is never a literal (L1); a literal match stores all 2n group slots, groups >= 1 as unset, and the set matcher fills all slots whenever it returns >= 0 (L2); the two word predicates agree on all 255 byte values by abstract evaluation (L3); the word-boundary tests never read before the subject (linear proof at each look-behind read) (L4).",
+    "C12": _p(["L1", "L2", "L3", "L4", "L5", "T4", "M2", "L6"],
+              "every literal-path return of rstr_find is reachable only when the pattern has no compiled set (L6); resumed at an interior offset with the left-context flag, the fast path, the engine started there and the engine on the whole line give the same first match on all lines of length <= 3 (L5); every caller that resumes inside a line passes that flag and the caller working on a copied run does not (M2); the fast path accepts an offset exactly when the engine's own RA_WBEG / RA_WEND atoms accept it, on every line of length <= 3 over {word, '-', blank}, and folds case exactly as the engine's literal atom does on every byte against its 0x20-neighbours (L5); every byte the regex parser treats as an operator (case labels, strchr sets and comparisons of the parser functions) stops the literal classifier's scan, so a pattern with an operator is never a literal (L1); a literal match stores all 2n group slots, groups >= 1 as unset, and the set matcher fills all slots whenever it returns >= 0 (L2); the two word predicates agree on all 255 byte values by abstract evaluation (L3); the word-boundary tests never read before the subject (linear proof at each look-behind read) (L4).",
               "equality of the two matchers' offsets on all lines (behavioural)."),
-    "C13": _p(["M2", "M1", "M3", "T4", "M4"],
-              "every place in vi.c that installs a new keyword assigns the remembered line offset before anything reads it (M4: typestate over the CFG and the call graph); the premise `matches are judged against the whole line`: every matcher call on an interior pointer of the line (lbuf_search, ec_substitute, syn_highlight) can carry the left-context flag, both matchers honour it, the copied run in dir_match does not claim it (M2, formerly the known finding D12), and the flags can carry RE_NOTBOL for the resumed scan (M1).",
+    "C13": _p(["M2", "M1", "M3", "T4", "M4", "M5"],
+              "ex_kwdset stores the direction on every path, with or without a keyword (M5); every place in vi.c that installs a new keyword assigns the remembered line offset before anything reads it (M4: typestate over the CFG and the call graph); the premise `matches are judged against the whole line`: every matcher call on an interior pointer of the line (lbuf_search, ec_substitute, syn_highlight) can carry the left-context flag, both matchers honour it, the copied run in dir_match does not claim it (M2, formerly the known finding D12), and the flags can carry RE_NOTBOL for the resumed scan (M1).",
               "which occurrence is chosen, wrap-around, counts, n/N (behavioural)."),
-    "C14": _p(["M1", "T1", "L2", "B6", "T4", "R5", "R9", "T5", "R12", "R11", "T6", "M2"],
-              "the one-character step after a zero-length match is implied by end == start at any offset (T6); the resumed scan passes the left-context flag so word boundaries see the real preceding character (M2); nothing that can store another keyword runs between ec_substitute storing its own pattern and reading it back (T5); group marks are reset for every start position (R12); rescans of the advanced line can carry RE_NOTBOL so a line-start anchor matches only at the true start (M1); after an empty match the scan advances by a decoded character length, never by a constant byte step on line text without ASCII knowledge, so valid UTF-8 stays valid (T1); group references read defined offsets inside offs[32] (L2, B6).",
+    "C14": _p(["M1", "T1", "L2", "B6", "T4", "R5", "R9", "T5", "R12", "R11", "T6", "M2", "R13", "S6"],
+              "ex_arg, evaluated abstractly, keeps escaped delimiters and `|` inside the substitute argument (S6); the one-character step after a zero-length match is implied by end == start at any offset (T6); the resumed scan passes the left-context flag so word boundaries see the real preceding character (M2); nothing that can store another keyword runs between ec_substitute storing its own pattern and reading it back (T5); group marks are reset for every start position (R12); rescans of the advanced line can carry RE_NOTBOL so a line-start anchor matches only at the true start (M1); after an empty match the scan advances by a decoded character length, never by a constant byte step on line text without ASCII knowledge, so valid UTF-8 stays valid (T1); group references read defined offsets inside offs[32] (L2, B6).",
               "leftmost non-overlapping selection and replacement expansion (behavioural)."),
-    "C16": _p(["T1", "T2", "T3", "T4", "R5"],
-              "the lead-byte length classes, masks and shifts of uc_len/uc_code equal RFC 3629's for all 256 lead bytes x continuation combinations, and the continuation-scanning uc_end agrees with the lead-byte length on well-formed input (T3); the regex engine's private uc_len/uc_dec/uc_beg equal the editor's on all well-formed inputs, by abstract evaluation of both ASTs (T2); no constant byte step is taken on line text without ASCII knowledge (T1).",
+    "C16": _p(["T1", "T2", "T3", "T4", "R5", "T7", "T8"],
+              "vi_case rewrites a byte in place only under a test that it is ASCII (T7); led_readchar terminates its static buffer on every path that returns it (T8); the lead-byte length classes, masks and shifts of uc_len/uc_code equal RFC 3629's for all 256 lead bytes x continuation combinations, and the continuation-scanning uc_end agrees with the lead-byte length on well-formed input (T3); the regex engine's private uc_len/uc_dec/uc_beg equal the editor's on all well-formed inputs, by abstract evaluation of both ASTs (T2); no constant byte step is taken on line text without ASCII knowledge (T1).",
               "agreement of the helpers built on next/previous over all strings (that is exhaustive execution); T4 (character counts never used as byte offsets) is not implemented."),
     "C11": _p(["R1", "R10", "R11", "R2", "R3", "R5", "R7", "R8", "B3", "B6", "R12"],
               "the matching state (program counter, depth, marks, subject pointer) is set afresh inside the scan loop for every start position (R12); the compiled program fits its allocation: rnode_count and rnode_emit/rnode_emitnorep are abstractly evaluated as cost functions (re_insert = 1, children symbolic) for every node kind and every repetition pair that rnode_atom admits (value ranges of the digit accumulation, rejection tests evaluated per cell) and estimate - emitted has only non-negative coefficients; jmpend pushes <= NREPS; regcomp adds its own 3 (R1); the estimate is a bounded quantity: every return of rnode_count is proved <= a constant cap, its arithmetic cannot leave int with children at the cap on every admitted cell, and regcomp allocates and emits only when the estimate is strictly below the cap, i.e. no clamp fired (R10); recursion is depth-guarded and 256 frames fit 1 MiB (R2); the private decoders and the bracket scanner never read or step past the terminator, by exhaustive abstract evaluation over all byte strings up to length 4-5 of a representative alphabet (R3); marks beyond the limit are dropped, reads of marks are index-guarded (R7); pattern allocations are exact (B3) and out-arrays large enough (B6).",
               "termination of matching in general; that offsets fall on character boundaries for literal runs rests on the pattern being valid UTF-8."),
-    "C15": _p(["S4", "G1", "G2", "G4", "B11", "T5", "S5"],
+    "C15": _p(["S4", "G1", "G2", "G4", "B11", "T5", "S5", "S2"],
               "the same for ec_glob (T5); every name the command table maps to ec_glob gets the same argument split, by abstract evaluation of ex_arg (S5); nothing reachable from a line-command handler or from ex_exec (dispatch edge "
               "excluded) bumps the sequence number, and ec_glob nests through ex_exec (S4: the "
               "whole global is one undo step); the global-mark array is moved, grown and cleared "
